@@ -7,7 +7,7 @@ CONSTANTS
   GraphClass = "any"
   OrderClass = "any"
   CycleCheck = "pair"
-  Pass2Cancel = "fresh"
+  Pass2Cancel = "freshsticky"
   Outermost = "coded"
   PropagateDespiteCycle = FALSE
 SPECIFICATION Spec
